@@ -271,6 +271,9 @@ Step(op, s, v) == [op |-> op, s |-> s, v |-> v]
 Begin == Step("begin", None, NoV)
 End == Step("end", None, NoV)
 Seen(s, b) == Step("seen", s, [Blank("seen", "One") EXCEPT !.act = b])
+DkgFailed(s, e) == Step("dkgres", s, [Blank("dkgres", "One") EXCEPT !.eon = e])     \* DKGResult{Eon e, Success false}
+HasPred(t) == t \in {"Z0", "One", "MaxI64p1"}                                        \* eon - 1 is a token (0 - 1 wraps)
+Pred(t) == CASE t = "One" -> "Z0" [] t = "MaxI64p1" -> "MaxI64" [] t = "Z0" -> "MaxU64"
 Scen(keypers, eon, steps, expect) == [ok |-> TRUE, keypers |-> keypers, eon |-> eon, steps |-> steps, expect |-> expect]
 NoScen == [ok |-> FALSE, keypers |-> <<>>, eon |-> None, steps |-> <<>>, expect |-> <<>>]
 Distinct(s) == \A i, j \in DOMAIN s : i # j => s[i] # s[j]
@@ -286,6 +289,11 @@ AppScenario(v) ==
                 (* deliverBatchConfig: vote of the only genesis keyper reaches threshold 1: BatchConfig, EonStarted *)
                 Scen(<<"K1">>, "One", <<Begin, Step("vote", "K1", v)>>,
                      <<GenesisBC(<<"K1">>), v, ES("One", v.act, v.idx)>>)
+      [] v.type = "eonstarted" /\ v.idx # "Z0" /\ HasPred(v.eon) ->
+                (* deliverDKGResult: the failure vote of the only keyper restarts the DKG: EONCounter++ *)
+                LET bc == BC(v.act, "One", <<"K1">>, v.idx) IN
+                Scen(<<"K1">>, Pred(v.eon), <<Begin, Step("vote", "K1", bc), DkgFailed("K1", Pred(v.eon))>>,
+                     <<GenesisBC(<<"K1">>), bc, ES(Pred(v.eon), v.act, v.idx), v>>)
       [] v.type = "eonstarted" /\ v.idx # "Z0" ->
                 LET bc == BC(v.act, "One", <<"K1">>, v.idx) IN
                 Scen(<<"K1">>, v.eon, <<Begin, Step("vote", "K1", bc)>>, <<GenesisBC(<<"K1">>), bc, v>>)
